@@ -77,7 +77,7 @@ Definition xdtag (cmd : str) (pairs : list str) (s : st) : dtag * st :=
   match fmt s with
   | FX => let s := check_attributes [R "class"; R "id"] pairs s in
           (mkDtag cmd pairs, if existsb (fun e => str_eqb cmd (runes e)) flow_elems then s else err "element does not allow all flowing content (warning)" s)
-  | FL => (mkDtag cmd pairs, s)
+  | FL => (mkDtag cmd pairs, if contains_any [123; 125; 92] cmd then err "-c option argument should not contain braces or backslashes" s else s)
   | _ => (mkDtag cmd [], s)
   end.
 Definition xmtag (cmd : option str) (b e : str) (pairs : list str) (s : st) : mtag * st :=
@@ -85,7 +85,8 @@ Definition xmtag (cmd : option str) (b e : str) (pairs : list str) (s : st) : mt
   | FX => let s := check_attributes [R "class"; R "id"] pairs s in
           let c := match cmd with Some (x :: r) => x :: r | _ => R "em" end in
           (mkMtag b c e pairs, if existsb (fun x => str_eqb c (runes x)) phrasing_elems then s else err "not an html phrasing element" s)
-  | FL => (mkMtag b (match cmd with Some (x :: r) => x :: r | _ => R "emph" end) e pairs, s)
+  | FL => let c := match cmd with Some (x :: r) => x :: r | _ => R "emph" end in
+          (mkMtag b c e pairs, if contains_any [123; 125; 92] c then err "-c option argument should not contain braces or backslashes" s else s)
   | FM => (mkMtag b (match cmd with Some (x :: r) => x :: r | _ => R "I" end) e [], s)
   | FK => let c := match cmd with Some x => x | None => R "*" end in
           (mkMtag b c e [], if existsb (str_eqb c) [R "*"; R "**"; R "_"; R "__"; R "`"; []] then s else err "not a supported markdown inline markup delimiter" s)
@@ -98,7 +99,7 @@ Definition check_param (param value : str) (s : st) : bool * st :=
       else if str_eqb param (R "epub-version") then
         (if str_eqb value [50] || str_eqb value [51] then (true, s) else (false, err "epub-version parameter should be 2 or 3" s))
       else if str_eqb param (R "xhtml-chap-prefix") then
-        (if existsb (N.eqb 47) value then (false, err "xhtml-chap-prefix parameter cannot contain a path separator" s) else (true, s))
+        (if existsb (N.eqb 47) value || negb (X.id_safe value) then (false, err "xhtml-chap-prefix parameter cannot contain a path separator" s) else (true, s))
       else if str_eqb param (R "xhtml-version") then
         (if str_eqb value [52] || str_eqb value [53] then (true, s) else (false, err "xhtml-version parameter should be 4 or 5" s))
       else (true, s)
